@@ -657,7 +657,8 @@ fn cand_decl(c: &Cand, fname: &str, in_struct: bool) -> Option<(String, Option<S
         };
         let mut d = format!("{}{} p{}{}", io, t, i, suf);
         if i >= c.non_default {
-            if p.io != Io::In || !is_numeric(p.ty.layer) {
+            // (a default value of a template-typed parameter is checked when the template is instantiated)
+            if p.io != Io::In || !(is_numeric(p.ty.layer) || matches!(p.ty.layer, Layer::TVar(_) | Layer::TVec(..) | Layer::TMat(..))) {
                 return None;
             }
             d.push_str(&format!(" = ({})0", t));
@@ -683,6 +684,12 @@ fn cand_decl(c: &Cand, fname: &str, in_struct: bool) -> Option<(String, Option<S
         }
         Some((format!("{}R{} {}({}) {}\n", head, c.id, fname, ps.join(", "), body), None))
     }
+}
+
+/// the prototype of a function template `cand_decl` wrote with its body
+fn template_prototype(def: &str) -> Option<String> {
+    let at = def.find(") { R")?;
+    Some(format!("{});\n", &def[..at]))
 }
 
 /// RSSL program for one declaration order; None = not expressible (SKIP).  `expect` is the struct named in assert_type.
@@ -1845,6 +1852,9 @@ impl Runner {
 enum Item {
     Decl(u8, Cand),
     Define(u32),
+    /// a later declaration of the ordinary free function declared earlier with this id whose parameters from `nd` on
+    /// carry default values (the first declaration's own count is `Cand::non_default`); true = a definition, false = a prototype
+    Redecl(u32, usize, bool),
     Site(u8, Vec<ETy>, Vec<Option<Ty>>),
     /// number, lookup mode, arguments of the call in the body, true = the body is a method of a struct template
     Helper(u32, u8, Vec<ETy>, bool),
@@ -1867,6 +1877,7 @@ fn show_item(i: &Item) -> String {
     match i {
         Item::Decl(s, c) => format!("d~{}~{}", s, show_cand(c)),
         Item::Define(id) => format!("r~{}", id),
+        Item::Redecl(id, nd, def) => format!("{}~{}~{}", if *def { "r" } else { "p" }, id, nd),
         Item::Site(m, a, t) => format!("c~{}~{}~{}", m, show_args(a), t.iter().map(show_targ).collect::<Vec<_>>().join("+")),
         Item::Helper(j, m, a, st) => format!("{}~{}~{}~{}", if *st { "s" } else { "h" }, j, m, show_args(a)),
         Item::Trigger(j, z) => format!("t~{}~{}", j, if *z { "f" } else { "i" }),
@@ -1883,6 +1894,8 @@ fn parse_item(s: &str) -> Option<Item> {
     match f.as_slice() {
         ["d", sc, c] => Some(Item::Decl(sc.parse().ok().filter(|x| *x <= 1)?, parse_cand(c)?)),
         ["r", id] => Some(Item::Define(id.parse().ok()?)),
+        ["r", id, nd] => Some(Item::Redecl(id.parse().ok()?, nd.parse().ok()?, true)),
+        ["p", id, nd] => Some(Item::Redecl(id.parse().ok()?, nd.parse().ok()?, false)),
         ["c", m, a, t] => {
             let mut targs = Vec::new();
             if !t.is_empty() {
@@ -1966,6 +1979,21 @@ fn seq_well_formed(items: &[Item], path: &SeqPath) -> bool {
                 }
                 defined.push(*id);
             }
+            Item::Redecl(id, nd, def) => {
+                let plain = items
+                    .iter()
+                    .any(|x| matches!(x, Item::Decl(_, c) if c.id == *id && is_user(c) && *nd <= c.params.len()));
+                let template = items.iter().any(|x| matches!(x, Item::Decl(_, c) if c.id == *id && !c.tkinds.is_empty()));
+                if *path != SeqPath::Free && (template || !matches!(path, SeqPath::Intrinsic(_))) {
+                    return false;
+                }
+                if !ids.contains(id) || !plain || (*def && defined.contains(id)) {
+                    return false;
+                }
+                if *def {
+                    defined.push(*id);
+                }
+            }
             Item::Site(m, _, _) => {
                 let ok = match path {
                     SeqPath::Free => *m <= 3,
@@ -2017,6 +2045,23 @@ fn seq_well_formed(items: &[Item], path: &SeqPath) -> bool {
     true
 }
 
+/// `amb` that names a candidate more than once, with every candidate named once: one left = it is selected
+fn collapse_duplicates(v: &Verdict) -> Option<Verdict> {
+    let Verdict::Amb(ids) = v else {
+        return None;
+    };
+    let mut d = ids.clone();
+    d.sort();
+    d.dedup();
+    if d.len() == ids.len() {
+        None
+    } else if d.len() == 1 {
+        Some(Verdict::Sel(d[0], None))
+    } else {
+        Some(Verdict::Amb(d))
+    }
+}
+
 /// what a name denotes at a call
 #[derive(Clone, PartialEq, Eq, Debug)]
 enum Vis {
@@ -2034,13 +2079,31 @@ enum Vis {
 /// functions (a struct, an enum, a typedef, a cbuffer, a namespace) are not candidates and, in the scope of the functions, take
 /// nothing away from them wherever they stand; a scope without a function of the name knows the name only if it
 /// declares a type of that name (a cbuffer block and a namespace are not values and not types: the lookup goes on outwards).
-fn visible_at(items: &[Item], pos: usize, mode: u8, path: &SeqPath) -> Vis {
+///
+/// A function declared more than once (prototype + definition, two prototypes): in the property's words the candidate is
+/// the *function*, and what is known of it at the call is what all its declarations above the call say together - a
+/// trailing parameter has a default value if one of them gives it one (`merge`; the order of these declarations is an
+/// order "the candidates were declared in").  `merge == false` is the other reading - only the first declaration counts -
+/// and is used for nothing but naming the known defect when the two differ.
+fn visible_at(items: &[Item], pos: usize, mode: u8, path: &SeqPath, merge: bool) -> Vis {
     let upto = if matches!(path, SeqPath::Method | SeqPath::TStruct) { items.len() } else { pos };
     let of = |scope: u8| -> Vec<Cand> {
         items[..upto]
             .iter()
             .filter_map(|i| match i {
-                Item::Decl(s, c) if *s == scope => Some(c.clone()),
+                Item::Decl(s, c) if *s == scope => {
+                    let mut c = c.clone();
+                    if merge {
+                        for x in &items[..upto] {
+                            if let Item::Redecl(id, nd, _) = x {
+                                if *id == c.id && *nd < c.non_default {
+                                    c.non_default = *nd;
+                                }
+                            }
+                        }
+                    }
+                    Some(c)
+                }
                 _ => None,
             })
             .collect()
@@ -2153,7 +2216,11 @@ fn seq_program(items: &[Item], include: &[bool], path: &SeqPath) -> Option<Strin
                 if !is_user(c) {
                     continue;
                 }
-                let (decl, _) = cand_decl(c, &fname, in_struct)?;
+                let (mut decl, _) = cand_decl(c, &fname, in_struct)?;
+                if !c.tkinds.is_empty() && items.iter().any(|x| matches!(x, Item::Redecl(id, _, true) if *id == c.id)) {
+                    // a function template that is defined further down: this declaration is its prototype
+                    decl = template_prototype(&decl)?;
+                }
                 if in_struct {
                     if *sc == 1 { body2.push_str(&decl) } else { body.push_str(&decl) }
                 } else {
@@ -2167,6 +2234,23 @@ fn seq_program(items: &[Item], include: &[bool], path: &SeqPath) -> Option<Strin
                 })?;
                 let (_, def) = cand_decl(c, &fname, false)?;
                 s.push_str(&wrap(sc == 1, &def?));
+            }
+            Item::Redecl(id, nd, is_def) => {
+                let (sc, c) = items.iter().find_map(|x| match x {
+                    Item::Decl(sc, c) if c.id == *id => Some((*sc, c)),
+                    _ => None,
+                })?;
+                let mut c2 = c.clone();
+                c2.non_default = *nd;
+                let (proto, def) = cand_decl(&c2, &fname, false)?;
+                let text = if c.tkinds.is_empty() {
+                    if *is_def { def? } else { proto }
+                } else if *is_def {
+                    proto // (a template's declaration carries its body)
+                } else {
+                    template_prototype(&proto)?
+                };
+                s.push_str(&wrap(sc == 1, &text));
             }
             Item::Site(mode, args, targs) => {
                 if !include[k] {
@@ -2470,6 +2554,43 @@ impl Runner {
         self.refs[&key].clone()
     }
 
+    /// the judgement of one site's verdict `v` on the candidate set `visible`: the C16.resolve oracle, and equality with
+    /// the one-call program of exactly that set
+    fn judge_visible(&mut self, k: usize, visible: &[Cand], v: &Verdict, args: &[ETy], targs: &[Option<Ty>], path: &SeqPath) -> Result<(), String> {
+        let visible: Vec<Cand> = visible.to_vec();
+        let (args, targs) = (args.to_vec(), targs.to_vec());
+            let j = judge_set(&mut self.real, &visible, &args, &targs);
+            if *v == Verdict::Rejected {
+                // all that can be said: the call was not accepted
+                if j.exact.len() == 1 && !j.out_converted.contains(&j.exact[0]) && !j.out_const.contains(&j.exact[0]) {
+                    return Err(format!("site {} (sees {:?}): candidate {} matches exactly but the call is refused", k, visible.iter().map(|c| c.id).collect::<Vec<_>>(), j.exact[0]));
+                } else if let Some(Verdict::Sel(id, _)) = self.reference(&visible, &args, &targs, path) {
+                    return Err(format!(
+                        "site {} sees the candidates {:?} and is refused, but a program that declares exactly these and calls once selects {}",
+                        k,
+                        visible.iter().map(|c| c.id).collect::<Vec<_>>(),
+                        id
+                    ));
+                }
+                return Ok(());
+            }
+            if let Err(e) = oracle(&j, v) {
+                return Err(format!("site {} (sees {:?}): {}", k, visible.iter().map(|c| c.id).collect::<Vec<_>>(), e));
+            }
+            if let Some(r) = self.reference(&visible, &args, &targs, path) {
+                if !matches!(r, Verdict::Other(_)) && show_verdict(&r) != show_verdict(v) {
+                    return Err(format!(
+                        "site {} sees the candidates {:?} and gives `{}`, but a program that declares exactly these and calls once gives `{}`: the verdict depends on more than the visible set and the argument types",
+                        k,
+                        visible.iter().map(|c| c.id).collect::<Vec<_>>(),
+                        show_verdict(v),
+                        show_verdict(&r)
+                    ));
+                }
+            }
+        Ok(())
+    }
+
     fn seq_case(&mut self, items: &[Item], path: &SeqPath, out: &mut Out) {
         let req = show_seq(items, path);
         if !seq_well_formed(items, path) {
@@ -2495,6 +2616,16 @@ impl Runner {
         let obs = match ran {
             None => {
                 out.case(&req, "-", "SKIP:not expressible as an RSSL program");
+                return;
+            }
+            Some(Err(e)) if e.contains("redefinition") && items.iter().any(|x| matches!(x, Item::Redecl(..))) => {
+                // a well-formed unit defines no function twice: prototypes and one definition of a function, in any order
+                self.hist.add("seq:declarations-refused-as-a-redefinition");
+                out.case(
+                    &req,
+                    "declarations-refused",
+                    &format!("FAIL:the unit declares a function more than once but defines none twice, and its declarations alone are refused: {}", e),
+                );
                 return;
             }
             Some(Err(e)) => {
@@ -2556,7 +2687,7 @@ impl Runner {
             if verdict.is_err() {
                 continue;
             }
-            let visible = match visible_at(items, *k, mode, path) {
+            let visible = match visible_at(items, *k, mode, path, true) {
                 Vis::Fns(v) => v,
                 Vis::Nothing => {
                     if *v != Verdict::NoName && *v != Verdict::Rejected {
@@ -2596,34 +2727,57 @@ impl Runner {
                 verdict = Err(format!("site {}: {} candidate(s) are visible at the call, but the name is reported as unknown", k, visible.len()));
                 continue;
             }
-            let j = judge_set(&mut self.real, &visible, &args, &targs);
-            if *v == Verdict::Rejected {
-                // all that can be said: the call was not accepted
-                if j.exact.len() == 1 && !j.out_converted.contains(&j.exact[0]) && !j.out_const.contains(&j.exact[0]) {
-                    verdict = Err(format!("site {} (sees {:?}): candidate {} matches exactly but the call is refused", k, visible.iter().map(|c| c.id).collect::<Vec<_>>(), j.exact[0]));
-                } else if let Some(Verdict::Sel(id, _)) = self.reference(&visible, &args, &targs, path) {
+            if let Err(e) = self.judge_visible(*k, &visible, v, &args, &targs, path) {
+                // a function declared more than once with different default arguments: is the verdict the one of the
+                // other reading (only the first declaration's default values count)?  Then it is that - known - defect
+                let first = match visible_at(items, *k, mode, path, false) {
+                    Vis::Fns(f) => f,
+                    _ => Vec::new(),
+                };
+                if first != visible && self.judge_visible(*k, &first, v, &args, &targs, path).is_ok() {
+                    let ids: Vec<u32> = visible.iter().zip(&first).filter(|(a, b)| a != b).map(|(a, _)| a.id).collect();
+                    self.hist.add("seq-site:first-declaration-defaults-only");
                     verdict = Err(format!(
-                        "site {} sees the candidates {:?} and is refused, but a program that declares exactly these and calls once selects {}",
+                        "redeclared-defaults: site {}: function(s) {:?} are declared more than once above the call and a later declaration gives default values the first one does not; the verdict `{}` is that of the first declaration alone, so it depends on the order of these declarations ({})",
                         k,
-                        visible.iter().map(|c| c.id).collect::<Vec<_>>(),
-                        id
-                    ));
-                }
-                continue;
-            }
-            if let Err(e) = oracle(&j, v) {
-                verdict = Err(format!("site {} (sees {:?}): {}", k, visible.iter().map(|c| c.id).collect::<Vec<_>>(), e));
-                continue;
-            }
-            if let Some(r) = self.reference(&visible, &args, &targs, path) {
-                if !matches!(r, Verdict::Other(_)) && show_verdict(&r) != show_verdict(v) {
-                    verdict = Err(format!(
-                        "site {} sees the candidates {:?} and gives `{}`, but a program that declares exactly these and calls once gives `{}`: the verdict depends on more than the visible set and the argument types",
-                        k,
-                        visible.iter().map(|c| c.id).collect::<Vec<_>>(),
+                        ids,
                         show_verdict(v),
-                        show_verdict(&r)
+                        e
                     ));
+                } else if let Some(collapsed) = collapse_duplicates(v) {
+                    // an ambiguity that names a function twice: is the verdict right once each function is counted once?
+                    let dup_ok = match &collapsed {
+                        Verdict::Amb(_) => self.judge_visible(*k, &visible, &collapsed, &args, &targs, path).is_ok(),
+                        Verdict::Sel(id, _) => {
+                            let j = judge_set(&mut self.real, &visible, &args, &targs);
+                            oracle(&j, &collapsed).is_ok()
+                                && matches!(self.reference(&visible, &args, &targs, path), Some(Verdict::Sel(r, _)) if r == *id)
+                        }
+                        _ => false,
+                    };
+                    // (only a template whose parameter types mention a template parameter is this known defect)
+                    let redeclared = |id: &u32| {
+                        items[..*k].iter().any(|x| matches!(x, Item::Redecl(i, _, _) if i == id))
+                            && visible.iter().any(|c| c.id == *id && !c.tkinds.is_empty() && c.params.iter().any(|p| is_template_layer(p.ty.layer)))
+                    };
+                    let dups: Vec<u32> = match v {
+                        Verdict::Amb(ids) => ids.windows(2).filter(|w| w[0] == w[1]).map(|w| w[0]).collect(),
+                        _ => Vec::new(),
+                    };
+                    if dup_ok && dups.iter().all(redeclared) {
+                        self.hist.add("seq-site:ambiguous-between-two-declarations-of-one-template");
+                        verdict = Err(format!(
+                            "redeclared-template: site {}: the call is `{}`: function template(s) {:?} are declared more than once above the call and every declaration is taken for an overload of its own - ambiguous between a function and itself ({})",
+                            k,
+                            show_verdict(v),
+                            dups,
+                            e
+                        ));
+                    } else {
+                        verdict = Err(e);
+                    }
+                } else {
+                    verdict = Err(e);
                 }
             }
         }
@@ -2648,6 +2802,20 @@ impl Runner {
                 Item::Decl(_, c) if c.tkinds.is_empty() => "seq-item:declaration-in-reopened-namespace",
                 Item::Decl(..) => "seq-item:template-declaration-in-reopened-namespace",
                 Item::Define(_) => "seq-item:definition-of-a-declared-function",
+                Item::Redecl(id, nd, def) => {
+                    let first = items.iter().find_map(|x| match x {
+                        Item::Decl(_, c) if c.id == *id => Some(c.non_default),
+                        _ => None,
+                    });
+                    match (first.map(|f| nd.cmp(&f)), def) {
+                        (Some(std::cmp::Ordering::Less), true) => "seq-item:definition-with-more-defaults-than-the-prototype",
+                        (Some(std::cmp::Ordering::Less), false) => "seq-item:second-prototype-with-more-defaults",
+                        (Some(std::cmp::Ordering::Greater), true) => "seq-item:definition-with-fewer-defaults-than-the-prototype",
+                        (Some(std::cmp::Ordering::Greater), false) => "seq-item:second-prototype-with-fewer-defaults",
+                        (_, true) => "seq-item:definition-with-the-same-defaults",
+                        (_, false) => "seq-item:second-prototype-with-the-same-defaults",
+                    }
+                }
                 Item::Site(..) => "seq-item:call-site",
                 Item::Helper(_, _, _, false) => "seq-item:function-template-with-a-call-in-its-body",
                 Item::Helper(..) => "seq-item:struct-template-with-a-call-in-a-method-body",
@@ -2824,8 +2992,13 @@ fn random_template_set(rng: &mut Rng, hist: &mut Hist) -> (Vec<Cand>, Vec<Ty>) {
             })
             .collect();
         let mut non_default = arity;
-        if arity > 1 && rng.chance(1, 10) && params[arity - 1].io == Io::In && is_numeric(params[arity - 1].ty.layer) {
+        let defaultable = |l: Layer| is_numeric(l) || matches!(l, Layer::TVar(_) | Layer::TVec(..) | Layer::TMat(..));
+        if arity > 1 && rng.chance(1, 6) && params[arity - 1].io == Io::In && defaultable(params[arity - 1].ty.layer) {
             non_default = arity - 1;
+            // a defaulted `T` parameter: is `T` still deduced when no argument is given for it?
+            if is_template_layer(params[arity - 1].ty.layer) {
+                hist.add("tset:default-value-of-a-template-typed-parameter");
+            }
         }
         // two ordinary functions with one parameter list are a redefinition, not an overload set
         // (a template whose parameter types do not mention its template parameters counts as one too)
@@ -3672,13 +3845,122 @@ pub fn run(args: &Args, out: &mut Out) {
             r.seq_case(&rev, &SeqPath::Free, out);
         }
     }
+    // (12) a function declared more than once with OTHER default arguments: prototype then definition, two prototypes,
+    //      prototype + prototype + definition; the default values on the first declaration only, on a later one only, on
+    //      both, on none; next to an overload that takes the shorter argument list; the same calls after every
+    //      declaration; and the same unit with the declarations of the function the other way round
+    let nre = if args.n.is_some() { n / 8 } else if args.thorough() { 2500 } else { 260 };
+    for i in 0..nre {
+        let m = rng.range(1, 3) as usize;
+        let mut centre: Vec<Ty> = vec![grid_ty(&mut rng)];
+        for _ in 1..m {
+            let c0 = centre[0];
+            centre.push(if rng.chance(1, 2) { related_ty(&mut rng, c0) } else { grid_ty(&mut rng) });
+        }
+        // every third unit: the function is a template - the first parameter (or, 1/4, none: its parameter types mention no
+        // template parameter) is `T` / `vector<T, n>`; a definition further down makes the first declaration its prototype
+        let tmpl = i % 3 == 1;
+        let mention = tmpl && i % 12 != 1;
+        let first_layer = match centre[0].layer {
+            Layer::Vector(_, n) if mention && rng.chance(1, 2) => Layer::TVec(0, n),
+            _ if mention => Layer::TVar(0),
+            l => l,
+        };
+        let main = |nd: usize| Cand {
+            id: 0,
+            non_default: nd,
+            params: centre
+                .iter()
+                .enumerate()
+                .map(|(k, t)| Param { io: Io::In, ty: if k == 0 { Ty { mods: Mods(0), layer: first_layer } } else { *t } })
+                .collect(),
+            tkinds: if tmpl { vec![true] } else { vec![] },
+        };
+        let nd_a = rng.below(m as u64 + 1) as usize;
+        let nd_b = if i % 5 == 4 { nd_a } else { rng.below(m as u64 + 1) as usize };
+        let sc: u8 = if i % 3 == 2 { 1 } else { 0 };
+        // companions: one that takes a shorter list of related types (it wins or ties when the defaults of the main one
+        // are not counted), sometimes one with the full list of other types
+        let mut comps: Vec<Cand> = Vec::new();
+        if i % 4 != 0 {
+            let len = rng.below(m as u64 + 1) as usize;
+            let ps: Vec<Param> = centre[..len].iter().map(|t| Param { io: Io::In, ty: related_ty(&mut rng, *t) }).collect();
+            if ps.iter().map(|p| p.ty).collect::<Vec<_>>() != centre {
+                comps.push(Cand { id: 1, non_default: len, params: ps, tkinds: vec![] });
+            }
+        }
+        if i % 4 == 3 {
+            let ps: Vec<Param> = centre.iter().map(|t| Param { io: Io::In, ty: related_ty(&mut rng, *t) }).collect();
+            if ps.iter().map(|p| p.ty).collect::<Vec<_>>() != centre && comps.iter().all(|c| c.params != ps) {
+                comps.push(Cand { id: 2, non_default: m, params: ps, tkinds: vec![] });
+            }
+        }
+        let mut tuples: Vec<Vec<ETy>> = Vec::new();
+        for len in 0..=m {
+            if len == nd_a || len == nd_b || len == m || rng.chance(1, 3) {
+                tuples.push(centre[..len].iter().map(|c| ETy { lvalue: true, ty: *c }).collect());
+            }
+        }
+        let len = rng.range(nd_a.min(nd_b) as i64, m as i64) as usize;
+        tuples.push(centre[..len].iter().map(|c| random_arg(&mut rng, *c)).collect());
+        tuples.dedup();
+        let mode: u8 = if sc == 0 { 0 } else { *rng.pick(&[1u8, 2]) };
+        let later_def = rng.chance(1, 2);
+        let third = i % 7 == 6;
+        let nd_c = rng.below(m as u64 + 1) as usize;
+        let comp_slot: Vec<usize> = comps.iter().map(|_| rng.below(3) as usize).collect();
+        let unit = |first: usize, later: usize| -> Vec<Item> {
+            let mut items: Vec<Item> = Vec::new();
+            let sites = |items: &mut Vec<Item>| {
+                for t in &tuples {
+                    // `T` cannot be deduced from a parameter list that does not mention it: name it
+                    let targs = if tmpl && !mention { vec![Some(Ty { mods: Mods(0), layer: Layer::Scalar(2) })] } else { Vec::new() };
+                    items.push(Item::Site(mode, t.clone(), targs));
+                }
+            };
+            let place = |items: &mut Vec<Item>, slot: usize| {
+                for (c, s) in comps.iter().zip(&comp_slot) {
+                    if *s == slot {
+                        items.push(Item::Decl(sc, c.clone()));
+                    }
+                }
+            };
+            place(&mut items, 0);
+            items.push(Item::Decl(sc, main(first)));
+            sites(&mut items);
+            place(&mut items, 1);
+            if third && i % 2 == 0 {
+                // the definition first, then one more prototype
+                items.push(Item::Redecl(0, nd_c, true));
+                sites(&mut items);
+                items.push(Item::Redecl(0, later, false));
+            } else if third {
+                items.push(Item::Redecl(0, later, false));
+                sites(&mut items);
+                items.push(Item::Redecl(0, nd_c, true));
+            } else {
+                items.push(Item::Redecl(0, later, later_def));
+            }
+            sites(&mut items);
+            place(&mut items, 2);
+            if comp_slot.contains(&2) {
+                sites(&mut items);
+            }
+            items
+        };
+        r.seq_case(&unit(nd_a, nd_b), &SeqPath::Free, out);
+        if nd_a != nd_b {
+            // the same declarations of the function, the other one first
+            r.seq_case(&unit(nd_b, nd_a), &SeqPath::Free, out);
+        }
+    }
     for (k, v) in &hist.0 {
         for _ in 0..*v {
             r.hist.add(k);
         }
     }
     out.stat(&format!(
-        "{{\"conv_universe\":{},\"conv_pairs\":{},\"single_param_pairs\":{},\"random_sets\":{},\"tuples_per_set\":{},\"path_sets\":{},\"template_sets\":{},\"intrinsic_cases\":{},\"output_sets\":{},\"sequences\":{},\"same_name_symbol_units\":{},\"compiles\":{},\"hist\":{}}}",
+        "{{\"conv_universe\":{},\"conv_pairs\":{},\"single_param_pairs\":{},\"random_sets\":{},\"tuples_per_set\":{},\"path_sets\":{},\"template_sets\":{},\"intrinsic_cases\":{},\"output_sets\":{},\"sequences\":{},\"same_name_symbol_units\":{},\"redeclaration_units\":{},\"compiles\":{},\"hist\":{}}}",
         uni.len(),
         uni.len() * uni.len(),
         pairs,
@@ -3690,6 +3972,7 @@ pub fn run(args: &Args, out: &mut Out) {
         no,
         nq,
         nsym,
+        nre,
         r.compiles,
         r.hist.json()
     ));
